@@ -20,6 +20,7 @@ fn main() {
 				"c20" => vh::c20_params_builder::replay(&cases, &mut out),
 				"c01" => vh::c01_single::replay(&cases, &mut out),
 				"c03http" => vh::c03_http::replay(&cases, &mut out),
+				"wsconnect" => vh::ws_connect::replay(&cases, &mut out),
 				"c02" => vh::c02_batch::replay(&cases, &mut out),
 				"c06" => vh::c06_subs::replay(&cases, &mut out),
 				"c07" | "c08" => vh::c07_limits::replay(&cases, &mut out),
